@@ -210,7 +210,7 @@ func runC06(c *Case, out func(string)) {
 	reopen := hdrVal(c.Hdr, "reopen", "0") == "1"
 	syncMode := hdrVal(c.Hdr, "sync", "immediate")
 	stall := parseStall(hdrVal(c.Hdr, "stall", "none"))
-	if err := writeManifest(dir, memsize, 1000000, func(cfg *config.Config) {
+	if err := writeManifest(dir, memsize, 65536, func(cfg *config.Config) {
 		switch syncMode {
 		case "none":
 			cfg.WALSyncMode = config.SyncNone
